@@ -8,12 +8,12 @@ from pyfun import ExprTr, FunTr, Ty, span
 
 FIELDS = {
     'self._in_declare': ('in_declare', Ty.BOOL),
-    'self._in_case': ('in_case', Ty.BOOL),
+    'self._case_depth': ('case_depth', Ty.Z),
     'self._is_create': ('is_create', Ty.BOOL),
     'self._begin_depth': ('begin_depth', Ty.Z),
 }
 RESET_EXPECT = {
-    'self._in_declare': 'False', 'self._in_case': 'False', 'self._is_create': 'False',
+    'self._in_declare': 'False', 'self._case_depth': '0', 'self._is_create': 'False',
     'self._begin_depth': '0', 'self.consume_ws': 'False', 'self.tokens': '[]', 'self.level': '0',
 }
 
@@ -129,7 +129,7 @@ def generate():
 
     out = [HEADER, 'From SqlModel Require Import Base PyStr SplitDefs.', 'From SqlModel.Gen Require Import CaseTabs.', '',
            'Definition reset_sstate : sstate :=',
-           '  {| in_declare := false; in_case := false; is_create := false; begin_depth := 0%Z |}.', '',
+           '  {| in_declare := false; case_depth := 0%Z; is_create := false; begin_depth := 0%Z |}.', '',
            '(* StatementSplitter._change_splitlevel *)',
            'Definition change_splitlevel (st : sstate) (ttype : ttype) (value : text) : sstate * Z :=',
            '  ' + body + '.', '',
